@@ -1,1 +1,4 @@
 import LithiumProofs.Rmslice
+import LithiumProofs.Lines
+import LithiumProofs.Load
+import LithiumProofs.Symbol
